@@ -1,12 +1,6 @@
 package main
 
 import (
-	"fmt"
-	"go/token"
-	"go/types"
-	"sort"
-	"strings"
-
 	"golang.org/x/tools/go/ssa"
 )
 
@@ -25,30 +19,6 @@ type av struct {
 	origin ssa.Value
 	base   *av
 	chain  []ssa.Value
-}
-
-func (x *av) String() string {
-	if x == nil {
-		return "<nil>"
-	}
-	switch x.kind {
-	case "const":
-		if x.isBool {
-			return fmt.Sprintf("const %v", x.b)
-		}
-		return fmt.Sprintf("const %q", x.s)
-	case "mod":
-		return "modified(" + x.base.String() + ")"
-	}
-	return x.kind
-}
-
-func (x *av) nameClass() bool {
-	switch x.kind {
-	case "hintname", "stdname", "guess", "mod", "storedname":
-		return true
-	}
-	return false
 }
 
 type regEvent struct {
@@ -80,812 +50,4 @@ type regEval struct {
 	trunc    bool
 }
 
-func (e *regEval) fieldOfLookup(v ssa.Value) (which string, field string, ok bool) {
-	// v is a load of field F of a struct obtained by map lookup on recv.hints / recv.imports keyed by the path
-	u, isU := v.(*ssa.UnOp)
-	var fld string
-	var src ssa.Value
-	if isU && u.Op == token.MUL {
-		fa, isFA := u.X.(*ssa.FieldAddr)
-		if !isFA {
-			return
-		}
-		fld = fieldName(fa.X.Type(), fa.Field)
-		al, isAl := fa.X.(*ssa.Alloc)
-		if !isAl {
-			return
-		}
-		src = e.a.singleStore(al)
-	} else if f, isF := v.(*ssa.Field); isF {
-		fld = fieldName(f.X.Type(), f.Field)
-		src = f.X
-	} else {
-		return
-	}
-	if src == nil {
-		return
-	}
-	if ex, isEx := src.(*ssa.Extract); isEx && ex.Index == 0 {
-		src = ex.Tuple
-	}
-	lk, isLk := src.(*ssa.Lookup)
-	if !isLk {
-		return
-	}
-	m := e.a.Desc(lk.X)
-	key := e.a.Desc(lk.Index)
-	if key != "p0" {
-		return
-	}
-	switch m {
-	case "recv.hints":
-		return "hint", fld, true
-	case "recv.imports":
-		return "stored", fld, true
-	}
-	return
-}
-
-func (e *regEval) eval(env map[ssa.Value]*av, v ssa.Value) *av {
-	if x, ok := env[v]; ok {
-		return x
-	}
-	var out *av
-	switch x := v.(type) {
-	case *ssa.Const:
-		if s, ok := constString(x); ok {
-			out = &av{kind: "const", s: s}
-		} else if b, ok := constBool(x); ok {
-			out = &av{kind: "const", b: b, isBool: true}
-		} else {
-			out = &av{kind: "unknown"}
-		}
-	case *ssa.Parameter:
-		if e.a.paramDesc(x) == "p0" {
-			out = &av{kind: "path"}
-		} else {
-			out = &av{kind: "unknown"}
-		}
-	case *ssa.MakeInterface:
-		return e.eval(env, x.X)
-	case *ssa.Convert:
-		return e.eval(env, x.X)
-	case *ssa.ChangeType:
-		return e.eval(env, x.X)
-	case *ssa.UnOp:
-		if x.Op == token.MUL {
-			if which, fld, ok := e.fieldOfLookup(x); ok {
-				switch which + "." + fld {
-				case "hint.name":
-					out = &av{kind: "hintname"}
-				case "hint.alias":
-					out = &av{kind: "hintalias", isBool: true}
-				case "stored.name":
-					out = &av{kind: "storedname"}
-				case "stored.alias":
-					out = &av{kind: "storedalias", isBool: true}
-				}
-			} else if e.a.Desc(x) == "recv.PackagePrefix" {
-				out = &av{kind: "prefix"}
-			}
-		}
-		if x.Op == token.NOT {
-			in := e.eval(env, x.X)
-			if in.kind == "const" && in.isBool {
-				out = &av{kind: "const", isBool: true, b: !in.b}
-			}
-		}
-	case *ssa.Field:
-		if which, fld, ok := e.fieldOfLookup(x); ok {
-			switch which + "." + fld {
-			case "hint.name":
-				out = &av{kind: "hintname"}
-			case "hint.alias":
-				out = &av{kind: "hintalias", isBool: true}
-			case "stored.name":
-				out = &av{kind: "storedname"}
-			case "stored.alias":
-				out = &av{kind: "storedalias", isBool: true}
-			}
-		}
-	case *ssa.Lookup:
-		if gl, ok := lookupGlobal(x.X); ok && gl == e.stdTable && e.a.Desc(x.Index) == "p0" {
-			out = &av{kind: "stdname"}
-		}
-	case *ssa.Extract:
-		if lk, ok := x.Tuple.(*ssa.Lookup); ok && x.Index == 0 {
-			if gl, ok := lookupGlobal(lk.X); ok && gl == e.stdTable && e.a.Desc(lk.Index) == "p0" {
-				out = &av{kind: "stdname"}
-			}
-		}
-	case *ssa.BinOp:
-		if x.Op == token.ADD {
-			l, r := e.eval(env, x.X), e.eval(env, x.Y)
-			switch {
-			case l.nameClass() && r.nameClass():
-				out = &av{kind: "unknown"}
-			case l.nameClass():
-				out = &av{kind: "mod", base: l}
-			case r.nameClass():
-				out = &av{kind: "mod", base: r}
-			case l.kind == "prefix" || r.kind == "prefix":
-				out = &av{kind: "prefix"}
-			case l.kind == "const" && r.kind == "const" && !l.isBool && !r.isBool:
-				out = &av{kind: "const", s: l.s + r.s}
-			}
-		}
-	case *ssa.Call:
-		sc := x.Call.StaticCallee()
-		switch {
-		case sc != nil && sc == e.guess && len(x.Call.Args) == 1 && e.eval(env, x.Call.Args[0]).kind == "path":
-			out = &av{kind: "guess"}
-		case sc != nil && sc == e.valid:
-			out = &av{kind: "valid", isBool: true}
-		case sc != nil && sc == e.isLocal:
-			out = &av{kind: "islocal", isBool: true}
-		case sc != nil && (sc.String() == "fmt.Sprintf" || sc.String() == "fmt.Sprint" || strings.HasPrefix(sc.String(), "strconv.")):
-			var names []*av
-			args := x.Call.Args
-			if len(args) > 0 {
-				if va, ok := varargs(args[len(args)-1]); ok {
-					args = append(append([]ssa.Value{}, args[:len(args)-1]...), va...)
-				}
-			}
-			for _, ar := range args {
-				if n := e.eval(env, ar); n.nameClass() {
-					names = append(names, n)
-				}
-			}
-			if len(names) == 1 {
-				out = &av{kind: "mod", base: names[0]}
-			}
-		}
-	}
-	if out == nil {
-		out = &av{kind: "unknown"}
-	}
-	if out.origin == nil {
-		out.origin = v
-	}
-	out.chain = append(out.chain, v)
-	return out
-}
-
-func lookupGlobal(m ssa.Value) (string, bool) {
-	u, ok := m.(*ssa.UnOp)
-	if !ok || u.Op != token.MUL {
-		return "", false
-	}
-	gl, ok := u.X.(*ssa.Global)
-	if !ok {
-		return "", false
-	}
-	return gl.Name(), true
-}
-
-func (e *regEval) run() {
-	visits := map[*ssa.BasicBlock]int{}
-	var walk func(b, pred *ssa.BasicBlock, env map[ssa.Value]*av, facts Facts, vals map[ssa.Value]bool, p *regPath)
-	walk = func(b, pred *ssa.BasicBlock, env map[ssa.Value]*av, facts Facts, vals map[ssa.Value]bool, p *regPath) {
-		if e.npaths > 4000 {
-			e.trunc = true
-			return
-		}
-		if visits[b] >= 3 {
-			return
-		}
-		visits[b]++
-		defer func() { visits[b]-- }()
-		p.blocks = append(p.blocks, b)
-		nEvents := len(p.events)
-		defer func() { p.blocks = p.blocks[:len(p.blocks)-1]; p.events = p.events[:nEvents] }()
-		// copy-on-write env
-		local := map[ssa.Value]*av{}
-		for k, v := range env {
-			local[k] = v
-		}
-		env = local
-		// phis: parallel assignment
-		var phiVals []*av
-		var phis []*ssa.Phi
-		for _, in := range b.Instrs {
-			phi, ok := in.(*ssa.Phi)
-			if !ok {
-				break
-			}
-			idx := -1
-			for i, pp := range b.Preds {
-				if pp == pred {
-					idx = i
-				}
-			}
-			var val *av
-			if idx >= 0 {
-				src := e.eval(env, phi.Edges[idx])
-				cp := *src
-				cp.chain = append(append([]ssa.Value{}, src.chain...), phi)
-				val = &cp
-			} else {
-				val = &av{kind: "unknown", origin: phi}
-			}
-			phis = append(phis, phi)
-			phiVals = append(phiVals, val)
-		}
-		for i, phi := range phis {
-			env[phi] = phiVals[i]
-		}
-		snapshot := func() (Facts, map[ssa.Value]bool) {
-			f := Facts{}
-			for k, v := range facts {
-				f[k] = v
-			}
-			vv := map[ssa.Value]bool{}
-			for k, v := range vals {
-				vv[k] = v
-			}
-			return f, vv
-		}
-		for _, in := range b.Instrs {
-			switch x := in.(type) {
-			case *ssa.Phi, *ssa.DebugRef:
-				continue
-			case *ssa.MapUpdate:
-				if fieldOf(x.Map) != "jen.File.imports" {
-					continue
-				}
-				fs, ok := e.a.structLit(x.Value)
-				ev := regEvent{kind: "store", in: in, key: e.eval(env, x.Key)}
-				ev.facts, ev.vals = snapshot()
-				if ok {
-					if n := fs["name"]; n != nil {
-						ev.name = e.eval(env, n)
-					} else {
-						ev.name = &av{kind: "const", s: ""}
-					}
-					if al := fs["alias"]; al != nil {
-						ev.alias = e.eval(env, al)
-					} else {
-						ev.alias = &av{kind: "const", isBool: true, b: false}
-					}
-				}
-				p.events = append(p.events, ev)
-				continue
-			case *ssa.Return:
-				ev := regEvent{kind: "return", in: in}
-				ev.facts, ev.vals = snapshot()
-				if len(x.Results) == 1 {
-					ev.res = e.eval(env, x.Results[0])
-				}
-				p.events = append(p.events, ev)
-				cp := &regPath{blocks: append([]*ssa.BasicBlock{}, p.blocks...), events: append([]regEvent{}, p.events...)}
-				e.paths = append(e.paths, cp)
-				e.npaths++
-				return
-			case *ssa.Panic:
-				e.npaths++
-				return
-			}
-			v, isVal := in.(ssa.Value)
-			if !isVal {
-				continue
-			}
-			val := e.eval(env, v)
-			env[v] = val
-			switch val.kind {
-			case "hintname", "hintalias":
-				ev := regEvent{kind: "hintlookup", in: in}
-				ev.facts, ev.vals = snapshot()
-				p.events = append(p.events, ev)
-			case "prefix":
-				ev := regEvent{kind: "prefixload", in: in}
-				ev.facts, ev.vals = snapshot()
-				p.events = append(p.events, ev)
-			case "mod":
-				ev := regEvent{kind: "mod", in: in, name: val}
-				ev.facts, ev.vals = snapshot()
-				p.events = append(p.events, ev)
-			case "valid":
-				call := in.(*ssa.Call)
-				ev := regEvent{kind: "validcall", in: in, name: e.eval(env, call.Call.Args[1])}
-				ev.facts, ev.vals = snapshot()
-				p.events = append(p.events, ev)
-			}
-		}
-		// successors
-		for i, s := range b.Succs {
-			nf := Facts{}
-			for k, v := range facts {
-				nf[k] = v
-			}
-			nv := map[ssa.Value]bool{}
-			for k, v := range vals {
-				nv[k] = v
-			}
-			feasible := true
-			if len(b.Succs) == 2 {
-				iff := b.Instrs[len(b.Instrs)-1].(*ssa.If)
-				for _, l := range e.a.edgeLits(b, i) {
-					if old, ok := nf[l.Atom]; ok && old != l.Pol {
-						// the same atom with the other polarity: only infeasible if no loop-carried value is involved
-						if !strings.Contains(l.Atom, "phi:") && !strings.Contains(l.Atom, "@") {
-							feasible = false
-						}
-					}
-					nf[l.Atom] = l.Pol
-				}
-				cond := iff.Cond
-				pol := i == 0
-				for {
-					if u, ok := cond.(*ssa.UnOp); ok && u.Op == token.NOT {
-						cond = u.X
-						pol = !pol
-						continue
-					}
-					break
-				}
-				// constant condition along this path
-				cv := e.eval(env, cond)
-				if cv.kind == "const" && cv.isBool && cv.b != pol {
-					feasible = false
-				}
-				nv[cond] = pol
-				for _, ch := range cv.chain {
-					nv[ch] = pol
-				}
-			}
-			if !feasible {
-				continue
-			}
-			walk(s, b, env, nf, nv, p)
-		}
-	}
-	walk(e.fn.Blocks[0], nil, map[ssa.Value]*av{}, Facts{}, map[ssa.Value]bool{}, &regPath{})
-}
-
-func (x *av) knownTrue(vals map[ssa.Value]bool) bool {
-	if x == nil {
-		return false
-	}
-	if x.kind == "const" && x.isBool {
-		return x.b
-	}
-	for _, v := range x.chain {
-		if b, ok := vals[v]; ok && b {
-			return true
-		}
-	}
-	return false
-}
-
-func (e *regEval) notDot(x *av, facts Facts) bool {
-	if x == nil {
-		return false
-	}
-	if x.kind == "guess" {
-		return true // T-REGEX: the guesser returns [a-z0-9]+ only
-	}
-	if x.kind == "const" && !x.isBool {
-		return x.s != "."
-	}
-	for _, v := range x.chain {
-		if facts.Has(`eq(".",`+e.a.Desc(v)+`)`, false) {
-			return true
-		}
-	}
-	return false
-}
-
-func sameOrigin(a, b *av) bool {
-	if a == nil || b == nil {
-		return false
-	}
-	if a.kind == "const" && b.kind == "const" && !a.isBool && !b.isBool {
-		return a.s == b.s
-	}
-	return a.origin != nil && a.origin == b.origin
-}
-
-func ruleRegister(c *Ctx) []Obligation {
-	o := c.newObs("P-REGISTER")
-	reg := c.registerFn()
-	a := c.FA(reg)
-	fn := fname(reg)
-	_, stdName, _, okStd := c.stdHintsTable()
-	if !okStd {
-		o.undecided(fn, "standard-library table", reg.Pos(), "anchor lost")
-	}
-	e := &regEval{c: c, a: a, fn: reg, valid: c.role("isValidAlias"), guess: c.role("guessAlias"), isLocal: c.role("isLocal"), stdTable: stdName}
-	if e.valid == nil || e.guess == nil || e.isLocal == nil {
-		o.undecided(fn, "helpers", reg.Pos(), "anchor lost: isValidAlias / guessAlias / isLocal")
-		return o.list
-	}
-	e.run()
-	if e.trunc || len(e.paths) == 0 {
-		o.undecided(fn, "path enumeration", reg.Pos(), "path enumeration exceeded its bound or found no path (%d)", len(e.paths))
-		return o.list
-	}
-	c.stats["register_paths"] = len(e.paths)
-	type verdict struct {
-		ok     bool
-		detail string
-		pos    token.Pos
-		n      int
-	}
-	res := map[string]*verdict{}
-	var order []string
-	note := func(key string, ok bool, pos token.Pos, detail string, args ...interface{}) {
-		v := res[key]
-		if v == nil {
-			v = &verdict{ok: true, pos: pos}
-			res[key] = v
-			order = append(order, key)
-		}
-		v.n++
-		if !ok && v.ok {
-			v.ok = false
-			v.detail = fmt.Sprintf(detail, args...)
-			v.pos = pos
-		}
-	}
-	cAtom := `eq("C",p0)`
-	for _, p := range e.paths {
-		ps := pathString(p.blocks)
-		var stores []regEvent
-		var lastValid *regEvent
-		var ret *regEvent
-		for i := range p.events {
-			ev := &p.events[i]
-			switch ev.kind {
-			case "store":
-				stores = append(stores, *ev)
-			case "validcall":
-				lastValid = ev
-			case "return":
-				ret = ev
-			case "hintlookup":
-				miss := false
-				for atom, pol := range ev.facts {
-					if pol && (strings.HasPrefix(atom, "empty(") || strings.HasPrefix(atom, `eq("_",`)) && strings.Contains(atom, "recv.imports") {
-						miss = true
-					}
-				}
-				note("hints are consulted only after a miss on File.imports (first registration wins)", miss, ev.in.Pos(), "hint read on path %s without an established miss (facts %s): a later ImportName / ImportAlias would rename an import already used", ps, ev.facts)
-				note("hints are never consulted for \"C\"", ev.facts.Has(cAtom, false), ev.in.Pos(), "hint read on path %s without path ≠ \"C\" (facts %s)", ps, ev.facts)
-			case "prefixload":
-				note("PackagePrefix is never applied to \"C\"", ev.facts.Has(cAtom, false), ev.in.Pos(), "prefix read on path %s without path ≠ \"C\"", ps)
-			case "mod":
-				// a modification of a candidate name: base must be known ≠ "."
-				base := ev.name.base
-				for base != nil && base.kind == "mod" {
-					base = base.base
-				}
-				nd := e.notDot(base, ev.facts)
-				if !nd {
-					// or: the validity predicate has just rejected a candidate built from the same base
-					for j := i - 1; j >= 0; j-- {
-						pv := p.events[j]
-						if pv.kind != "validcall" {
-							continue
-						}
-						rej := false
-						if call, ok := pv.in.(*ssa.Call); ok {
-							if b, ok := ev.vals[call]; ok && !b {
-								rej = true
-							}
-						}
-						arg := pv.name
-						ab := arg
-						for ab != nil && ab.kind == "mod" {
-							ab = ab.base
-						}
-						if rej && ab != nil && base != nil && ab.origin == base.origin {
-							if arg.kind != "mod" {
-								nd = true // the unmodified name was rejected, and "." is always accepted
-							} else {
-								nd = true // a modified candidate exists only where the base was already known ≠ "."
-							}
-						}
-						break
-					}
-				}
-				note("a candidate name is modified (prefix / number) only if it is known not to be \".\"", nd, ev.in.Pos(), "on path %s the name %s is modified without an established ≠ \".\" (facts %s): a dot-import would be rendered as pkg_. or .1", ps, ev.name, ev.facts)
-			}
-		}
-		if ret == nil {
-			continue
-		}
-		switch {
-		case len(stores) == 0:
-			// no registration on this path: local path or hit
-			switch {
-			case ret.res.kind == "const" && ret.res.s == "":
-				okLocal := false
-				for v, b := range ret.vals {
-					if call, ok := v.(*ssa.Call); ok && b && call.Call.StaticCallee() == e.isLocal {
-						okLocal = true
-					}
-				}
-				note("the empty qualifier is returned only for the local path", okLocal, ret.in.Pos(), "path %s returns \"\" without isLocal(path) being true", ps)
-			case ret.res.kind == "storedname":
-				okHit := false
-				ne, nu := false, false
-				for atom, pol := range ret.facts {
-					if !pol && strings.HasPrefix(atom, "empty(") && strings.Contains(atom, "recv.imports") {
-						ne = true
-					}
-					if !pol && strings.HasPrefix(atom, `eq("_",`) && strings.Contains(atom, "recv.imports") {
-						nu = true
-					}
-				}
-				okHit = ne && nu
-				note("a known path returns its stored name, unless that is empty or \"_\"", okHit, ret.in.Pos(), "path %s returns the stored name without having established name ≠ \"\" and name ≠ \"_\" (facts %s): after Anon(path) a reference would be qualified by _", ps, ret.facts)
-			default:
-				note("every return without registration is the local or the known-path case", false, ret.in.Pos(), "path %s returns %s without storing an import", ps, ret.res)
-			}
-		case len(stores) > 1:
-			note("one registration per call", false, stores[1].in.Pos(), "path %s stores %d entries", ps, len(stores))
-		default:
-			st := stores[0]
-			if st.name == nil || st.alias == nil {
-				note("stored entry is a recognisable {name, alias} literal", false, st.in.Pos(), "path %s", ps)
-				continue
-			}
-			// the "C" case
-			if st.key.kind == "const" && st.key.s == "C" {
-				okC := st.name.kind == "const" && st.name.s == "C" && st.alias.kind == "const" && !st.alias.b && st.facts.Has(cAtom, true) && ret.res.kind == "const" && ret.res.s == "C"
-				note("\"C\" is registered as {\"C\", no alias} and referred to as C", okC, st.in.Pos(), "path %s stores {%s, %s} returns %s under %s", ps, st.name, st.alias, ret.res, st.facts)
-				continue
-			}
-			note("the entry is stored under the path being registered", st.key.kind == "path", st.in.Pos(), "path %s stores under key %s", ps, st.key)
-			note("nothing but the \"C\" case registers \"C\"", st.facts.Has(cAtom, false), st.in.Pos(), "path %s reaches the general store without path ≠ \"C\": the pseudo-package could be aliased, prefixed or numbered", ps)
-			// coherence of name class and alias flag
-			aliasTrue := st.alias.knownTrue(st.vals)
-			var okCoh bool
-			var cls string
-			switch st.name.kind {
-			case "hintname":
-				cls = "raw hint name"
-				okCoh = st.alias.kind == "hintalias" || aliasTrue
-			case "stdname":
-				cls = "raw standard-library name"
-				okCoh = true
-			case "guess":
-				cls = "guessed name"
-				okCoh = aliasTrue
-			case "mod":
-				cls = "modified name"
-				okCoh = aliasTrue
-			default:
-				cls = "unclassified name " + st.name.String()
-				okCoh = false
-			}
-			note("a name stored without alias is the raw hint / standard-library name; guessed or modified names are aliases ("+cls+")", okCoh, st.in.Pos(),
-				"path %s stores a %s with alias flag %s not known to be true: the import line would omit the alias although the qualifier is not the package's real name", ps, cls, st.alias)
-			// checked = stored = returned
-			okChecked := false
-			if lastValid != nil {
-				if call, ok := lastValid.in.(*ssa.Call); ok {
-					if b, ok := st.vals[call]; ok && b && sameOrigin(lastValid.name, st.name) {
-						okChecked = true
-					}
-				}
-			}
-			lv := "<none>"
-			if lastValid != nil {
-				lv = lastValid.name.String()
-			}
-			note("the name stored is the very name that passed the validity test", okChecked, st.in.Pos(), "path %s stores %s but the last accepted candidate was %s: uniqueness / legality was established for a different string (e.g. prefix applied afterwards)", ps, st.name, lv)
-			note("the name returned is the name stored", sameOrigin(ret.res, st.name), ret.in.Pos(), "path %s returns %s but stores %s: the qualifier written would not match the import line", ps, ret.res, st.name)
-		}
-	}
-	sort.Strings(order)
-	for _, k := range order {
-		v := res[k]
-		st := Discharged
-		d := fmt.Sprintf("holds on all %d path instances (of %d enumerated paths)", v.n, len(e.paths))
-		if !v.ok {
-			st = Violated
-			d = v.detail
-		}
-		o.add(st, fn, k, v.pos, true, "%s", d)
-	}
-	// vacuity: the general registration and the C case must both have been seen
-	for _, need := range []string{"the name stored is the very name that passed the validity test", "\"C\" is registered as {\"C\", no alias} and referred to as C", "a known path returns its stored name, unless that is empty or \"_\"", "hints are consulted only after a miss on File.imports (first registration wins)"} {
-		if res[need] == nil {
-			o.add(Violated, fn, need, reg.Pos(), true, "no path of the registration function exhibits this case any more (the mechanism was removed)")
-		}
-	}
-	return o.list
-}
-
 // ---------------------------------------------------------------------------------------------
-
-func ruleValidAlias(c *Ctx) []Obligation {
-	o := c.newObs("P-VALIDALIAS")
-	f := c.role("isValidAlias")
-	if f == nil {
-		o.undecided("(*jen.File).isValidAlias", "anchor", token.NoPos, "anchor lost")
-		return o.list
-	}
-	a := c.FA(f)
-	fn := fname(f)
-	dotAtom := `eq(".",p0)`
-	resv := c.jenFunc("IsReservedWord")
-	var resvCall *ssa.Call
-	for _, ci := range a.callsTo(resv) {
-		if call, ok := ci.(*ssa.Call); ok && call.Call.Args[0] == ssa.Value(f.Params[1]) {
-			resvCall = call
-		}
-	}
-	if resvCall == nil {
-		o.add(Violated, fn, "reserved words are rejected", f.Pos(), true, "no call IsReservedWord(candidate)")
-	}
-	// the loop over File.imports
-	var loop *mapLoop
-	for _, ml := range mapLoops(f) {
-		if a.Desc(ml.rng.X) == "recv.imports" {
-			loop = ml
-		}
-	}
-	if loop == nil {
-		o.add(Violated, fn, "candidate is compared with every registered name", f.Pos(), true, "no range over File.imports (the map the registration function stores into)")
-	}
-	nameAtom := ""
-	if loop != nil && loop.val != nil {
-		nameAtom = "eq(" + min2(a.Desc(loop.val)+".name", "p0") + "," + max2(a.Desc(loop.val)+".name", "p0") + ")"
-	}
-	for _, r := range a.returns() {
-		bv, isConst := constBool(r.Results[0])
-		if !isConst {
-			o.undecided(fn, "result", r.Pos(), "returns %s", a.Desc(r.Results[0]))
-			continue
-		}
-		ws := a.WaysTo(r.Block())
-		if bv {
-			ok, bad := allWays(ws, func(w Facts) bool {
-				if w.Has(dotAtom, true) {
-					// accepted unconditionally: no other fact may have been needed
-					return len(w) == 1
-				}
-				// otherwise: not reserved and loop exhausted
-				if resvCall != nil && !w.Has(a.Desc(resvCall), false) {
-					return false
-				}
-				if loop != nil && !w.Has(a.Desc(loop.next)+"#0", false) {
-					return false
-				}
-				return w.Has(dotAtom, false)
-			})
-			o.req(ok, fn, "accepts \".\" unconditionally; anything else only if not reserved and after all entries were compared", r.Pos(), "way %s", bad)
-		} else {
-			ok, bad := allWays(ws, func(w Facts) bool {
-				if w.Has(dotAtom, true) {
-					return false
-				}
-				if resvCall != nil && w.Has(a.Desc(resvCall), true) {
-					return true
-				}
-				return nameAtom != "" && w.Has(nameAtom, true)
-			})
-			o.req(ok, fn, "rejects only reserved words and names already registered, never \".\"", r.Pos(), "way %s", bad)
-		}
-	}
-	// whenever reserved: rejected; whenever equal to a registered name: rejected
-	if resvCall != nil {
-		for _, s := range []int{0} {
-			_ = s
-			// the true edge of the reserved test leads only to `return false`
-			blk := resvCall.Block()
-			if iff, ok := blk.Instrs[len(blk.Instrs)-1].(*ssa.If); ok && iff.Cond == ssa.Value(resvCall) {
-				t := blk.Succs[0]
-				rr, isRet := t.Instrs[len(t.Instrs)-1].(*ssa.Return)
-				okr := false
-				if isRet {
-					if b, ok := constBool(rr.Results[0]); ok && !b {
-						okr = true
-					}
-				}
-				o.req(okr, fn, "a reserved candidate is rejected at once", resvCall.Pos(), "")
-			} else {
-				o.undecided(fn, "a reserved candidate is rejected at once", resvCall.Pos(), "the reserved-word test is not a branch condition of its own")
-			}
-		}
-	}
-	if loop != nil {
-		// no entry skipped: every way back to the loop head carries name ≠ candidate, and that comparison is the first thing in the body
-		for _, p := range loop.header.Preds {
-			if !loop.header.Dominates(p) && p != loop.header {
-				continue
-			}
-			ok, bad := allWays(a.WaysOnEdge(p, loop.header), func(w Facts) bool { return nameAtom != "" && w.Has(nameAtom, false) })
-			o.req(ok, fn, "the loop moves on only past entries whose name differs (no entry skipped)", loop.rng.Pos(), "way %s — e.g. entries without alias must be compared too", bad)
-		}
-		o.req(a.Desc(loop.rng.X) == "recv.imports", fn, "the names compared are those of File.imports", loop.rng.Pos(), "ranges over %s", a.Desc(loop.rng.X))
-	}
-	return o.list
-}
-
-func ruleLocalDot(c *Ctx) []Obligation {
-	o := c.newObs("P-LOCALDOT")
-	if f := c.role("isLocal"); f != nil {
-		a := c.FA(f)
-		rs := a.returns()
-		ok := len(rs) == 1 && len(f.Blocks) == 1
-		d := ""
-		if ok {
-			d = a.Desc(rs[0].Results[0])
-			ok = d == "(p0 == recv.path)" || d == "(recv.path == p0)"
-		}
-		o.req(ok, fname(f), "exactly f.path == path", f.Pos(), "returns %s in %d blocks — a prefix / suffix / case-insensitive comparison would drop the import of a different package", d, len(f.Blocks))
-	} else {
-		o.undecided("(*jen.File).isLocal", "anchor", token.NoPos, "anchor lost")
-	}
-	if f := c.role("isDotImport"); f != nil {
-		a := c.FA(f)
-		fn := fname(f)
-		for _, r := range a.returns() {
-			v := r.Results[0]
-			ws := a.WaysTo(r.Block())
-			if b, isConst := constBool(v); isConst {
-				if b {
-					o.add(Violated, fn, "dot-import test", r.Pos(), true, "returns true unconditionally")
-					continue
-				}
-				ok, bad := allWays(ws, func(w Facts) bool {
-					for atom, pol := range w {
-						if !pol && strings.HasPrefix(atom, "has(recv.hints,p0)") {
-							return true
-						}
-						if !pol && strings.Contains(atom, "recv.hints[p0]") {
-							return true
-						}
-					}
-					return false
-				})
-				o.req(ok, fn, "false outright only if there is no hint / the hint is no dot alias", r.Pos(), "way %s", bad)
-				continue
-			}
-			// name == "." && alias
-			lits := phiConj(a, v)
-			hasDot, hasAlias := false, false
-			for _, l := range lits {
-				if l.Pol && strings.HasPrefix(l.Atom, `eq(".",`) && strings.Contains(l.Atom, "recv.hints[p0]") && strings.HasSuffix(l.Atom, ".name)") {
-					hasDot = true
-				}
-				if l.Pol && strings.Contains(l.Atom, "recv.hints[p0]") && strings.HasSuffix(l.Atom, ".alias") {
-					hasAlias = true
-				}
-			}
-			o.req(hasDot && hasAlias && len(lits) == 2, fn, "exactly hints[path].name == \".\" && hints[path].alias", r.Pos(), "returns the conjunction %v", lits)
-		}
-	} else {
-		o.undecided("(*jen.File).isDotImport", "anchor", token.NoPos, "anchor lost")
-	}
-	_ = types.Typ
-	return o.list
-}
-
-// phiConj: decompose a boolean value built by && into its conjunct literals.
-func phiConj(a *FnA, v ssa.Value) []Lit {
-	phi, ok := v.(*ssa.Phi)
-	if !ok {
-		return a.lits(v, true)
-	}
-	// a && b : phi [false from the block where a failed, b otherwise]
-	var out []Lit
-	for i, e := range phi.Edges {
-		pred := phi.Block().Preds[i]
-		if b, isConst := constBool(e); isConst {
-			if b {
-				return []Lit{{a.Desc(v), true}}
-			}
-			// the edge asserts ¬a ; so a is a conjunct
-			for _, l := range a.edgeLits(pred, succIndex(pred, phi.Block())) {
-				out = append(out, Lit{l.Atom, !l.Pol})
-			}
-			continue
-		}
-		out = append(out, phiConj(a, e)...)
-	}
-	return out
-}
